@@ -73,7 +73,7 @@ def prepare(data, info, time_entries=1, force_copy=False, report_conversion=Fals
             data = UNITS.Quantity(
                 np.ma.array(
                     data=data.magnitude,
-                    mask=info.mask,
+                    mask=_mask_for(data.magnitude, info),
                     shrink=False,
                     fill_value=info.fill_value,
                 ),
@@ -89,7 +89,7 @@ def prepare(data, info, time_entries=1, force_copy=False, report_conversion=Fals
             data = UNITS.Quantity(
                 np.ma.array(
                     data=data,
-                    mask=info.mask,
+                    mask=_mask_for(data, info),
                     shrink=False,
                     fill_value=info.fill_value,
                     copy=force_copy,
@@ -111,6 +111,13 @@ def prepare(data, info, time_entries=1, force_copy=False, report_conversion=Fals
     if report_conversion:
         return data, units_converted
     return data
+
+
+def _mask_for(data, info):
+    """The mask of the info, flattened in grid order if the data is given flat."""
+    if np.ndim(data) == 1 and np.ndim(info.mask) > 1:
+        return np.ravel(info.mask, order=getattr(info.grid, "order", "C"))
+    return info.mask
 
 
 def _check_input_shape(data, info, time_entries):
